@@ -368,3 +368,42 @@ def test_c11_struct_update_keeps_the_room_of_every_part():
     assert list(s1.a.to_nparray()) == [1, 2, 3] and list(s1.b.to_nparray()) == [4]
     s1._update(S(a=[7, 8, 9], b=[10]))
     assert list(s1.a.to_nparray()) == [7, 8, 9] and list(s1.b.to_nparray()) == [10]
+
+
+def test_c04_allocator_with_narrow_numpy_sizes():
+    b = BufferNumpy(capacity=250, context=ctx)
+    assert b.allocate(200) == 0
+    off = b.allocate(np.uint8(100))
+    assert off + 100 <= b.capacity and off >= 200
+    b.free(off, np.uint8(100))
+    assert b.get_free() == b.capacity - 200
+
+
+def test_c10_string_object_assignment_keeps_the_room():
+    class T(xo.Struct):
+        n = xo.String
+        v = xo.Int64
+
+    t = T(n="abcdefghijklmnop", v=7)
+    t.n = xo.String("ab")
+    assert t.n == "ab"
+    t.n = "abcdefghijklmnop"
+    assert (t.n, t.v) == ("abcdefghijklmnop", 7)
+
+
+def test_c11_index_with_too_many_entries():
+    m = xo.Float64[3, 4](np.zeros((3, 4)))
+    with pytest.raises(IndexError):
+        m[(1, 2, 99)] = -1.0
+    with pytest.raises(IndexError):
+        m[(1, 2, 0)]
+    assert m[1, 2] == 0.0
+
+
+def test_c11_sequence_for_a_scalar_slot_is_refused():
+    buf = ctx.new_buffer(256)
+    a = xo.Float64[3]([1, 2, 3], _buffer=buf)
+    b = xo.Float64[3]([7, 8, 9], _buffer=buf)
+    with pytest.raises(ValueError):
+        a[2] = [5.0, 6.0]
+    assert (a[2], b[0]) == (3.0, 7.0)
